@@ -94,9 +94,11 @@ def import_from_path(module_name: str, file_path: Path) -> Callable[[], Model]:
     assert spec is not None  # noqa: S101
     module = util.module_from_spec(spec)
     sys.modules[module_name] = module
-    loader = spec.loader
-    assert loader is not None  # noqa: S101
-    loader.exec_module(module)
+    # The file is rewritten on every read. Compile the text that was just written:
+    # the loader would reuse a cached .pyc of an earlier document whenever the new
+    # file has the same size and the same modification time in seconds.
+    code = compile(file_path.read_text(), str(file_path), "exec")
+    exec(code, module.__dict__)  # noqa: S102
     return module.create_model
 
 
